@@ -24,3 +24,66 @@ contract("exceptions:JSONPathError.__str__",
              "implies(not is_none(self.token), result == exc_message(self) + ', line ' + int_str(int_of(seq(line_col(str_of(self.token.query), self.token.index))[0])) + ', column ' + int_str(int_of(seq(line_col(str_of(self.token.query), self.token.index))[1])))"],
     raises=[], props=["C19", "C13"],
     note="the message printed is the constructor's message followed by exactly the line and column of the token's offset in the query text (Token.position)")
+
+contract("parse:Parser._parse_hex_digits",
+    requires=["is_str(digits)", "isinstance(token, Token)"],
+    ensures=["result == hex_val(utf8(str_of(digits)), len(utf8(str_of(digits))))"],
+    raises_iff=[("JSONPathSyntaxError", "not all_hex(utf8(str_of(digits)), len(utf8(str_of(digits))))")],
+    loops={1: ["all_hex(utf8(str_of(digits)), i1)", "codepoint == hex_val(utf8(str_of(digits)), i1)", "codepoint >= 0"]},
+    props=["C09", "C13"],
+    note="digits.encode() is the sequence of UTF-8 code units (A12)")
+
+_U1 = "utf8(str_of(value)[index + 1:index + 5])"
+_U2 = "utf8(str_of(value)[index + 7:index + 11])"
+_CP1 = f"hex_val({_U1}, len({_U1}))"
+_CP2 = f"hex_val({_U2}, len({_U2}))"
+_HI = f"({_CP1} >= 55296 and {_CP1} <= 56319)"
+_LO1 = f"({_CP1} >= 56320 and {_CP1} <= 57343)"
+_LO2 = f"({_CP2} >= 56320 and {_CP2} <= 57343)"
+_FOLLOWS = "(index + 10 < len(value) and str_of(value)[index + 5] == '\\\\' and str_of(value)[index + 6] == 'u')"
+
+contract("parse:Parser._decode_hex_char",
+    requires=["is_str(value)", "is_int(index)", "index >= 0", "index < len(value)", "isinstance(token, Token)", "is_int(token.index)"],
+    ensures=[f"implies(not {_HI}, result == mk_tuple([{_CP1}, index + 4]))",
+             f"implies({_HI}, result == mk_tuple([pair_value({_CP1}, {_CP2}), index + 10]))",
+             "is_int(seq(result)[0]) and int_of(seq(result)[0]) >= 0 and int_of(seq(result)[0]) <= 1114111"],
+    lemmas=[("utf8_hex_is_ascii", {"s": "str_of(value)[index + 1:index + 5]"}),
+            ("utf8_hex_is_ascii", {"s": "str_of(value)[index + 7:index + 11]"}),
+            ("hex_val_bound", {"bs": _U1, "k": f"len({_U1})"}),
+            ("hex_val_bound", {"bs": _U2, "k": f"len({_U2})"})],
+    raises_iff=[("JSONPathSyntaxError",
+                 f"index + 4 >= len(value) or not all_hex({_U1}, len({_U1})) or {_LO1} or "
+                 f"({_HI} and (not {_FOLLOWS} or not all_hex({_U2}, len({_U2})) or not {_LO2}))")],
+    props=["C09", "C13"],
+    note="value[index] is the 'u' of a \\\\uXXXX escape; the result is the scalar value (a surrogate pair combined by the Unicode formula) "
+         "and the position of the last character consumed")
+
+contract("parse:Parser._decode_escape_sequence",
+    requires=["is_str(value)", "is_int(index)", "index >= 0", "index < len(value)", "isinstance(token, Token)", "is_int(token.index)"],
+    ensures=["result == mk_tuple([esc_char(str_of(value), index), esc_end(str_of(value), index)])"],
+    raises_iff=[("JSONPathSyntaxError", "esc_bad(str_of(value), index)")],
+    props=["C09", "C13"],
+    note="value[index] is the character after the backslash; result = (decoded character, position of the last character consumed)")
+
+contract("parse:Parser._unescape_string",
+    requires=["is_str(value)", "isinstance(token, Token)", "is_int(token.index)", "not dec_dangling(str_of(value), 0)"],
+    ensures=["result == ''.join(dec_from(str_of(value), 0))"],
+    raises_iff=[("JSONPathSyntaxError", "dec_bad(str_of(value), 0)")],
+    loops={1: ["is_int(index)", "index >= 0", "is_arr(unescaped)", "all(is_str(c) for c in seq(unescaped))",
+               "not dec_dangling(str_of(value), index)",
+               "dec_bad(str_of(value), 0) == dec_bad(str_of(value), index)",
+               "dec_from(str_of(value), 0) == seq(unescaped) + dec_from(str_of(value), index)"]},
+    props=["C09", "C13"],
+    note="the loop invariant relates what is decoded so far to the suffix functions dec_from / dec_bad of spec/text.py")
+
+_BODY = ("(str_of(token.value).replace('\"', '\\\\\"').replace(\"\\\\'\", \"'\") "
+         "if token.type_ == TokenType.SINGLE_QUOTE_STRING else str_of(token.value))")
+
+contract("parse:Parser._decode_string_literal",
+    requires=["isinstance(token, Token)", "is_str(token.value)", "is_int(token.index)", "isinstance(token.type_, TokenType)",
+              f"not dec_dangling({_BODY}, 0)"],
+    ensures=[f"result == ''.join(dec_from({_BODY}, 0))"],
+    raises_iff=[("JSONPathSyntaxError", f"dec_bad({_BODY}, 0)")],
+    props=["C09", "C13"],
+    note="a single-quoted literal is first rewritten to the double-quoted spelling (str.replace is an uninterpreted builtin shared with the "
+         "contract), then decoded")
